@@ -72,6 +72,8 @@ def variants(ctx):
     if ctx.tier == 'thorough':
         v.append(('double/gnu++17', dict(simd=False, std='gnu++17', extra=('-DNDEBUG', '-DRKV_SCALAR=double'))))
         v.append(('float/OMP', dict(simd=False, config='OMP', extra=('-DNDEBUG',))))
+        v.append(('double/padded', dict(simd=False, extra=('-DNDEBUG', '-DRKV_PADDED', '-DRKV_SCALAR=double'))))
+        v.append(('float/SIMD', dict(simd=True, extra=('-DNDEBUG',), skip_approx=True)))
     return v
 
 
